@@ -466,8 +466,7 @@ def run(ctx):
     if not sp.ok:
         res.broken_ties.append('the shape of dircontexts/dirmarks changed: CR2L/CNEUT could not be read from the generated tables')
         return
-    probe, probe_asan = rc.build()
-    model = ctx.model('ren')
+    probe, probe_asan, model = rc.build(model=lambda: ctx.model('ren'))
     res.rule = ('one evaluation = one line x textdirection through dir_context and dir_reorder (plus every dir_match answer on the way) and through '
                 'uc_shape/ren_translate of every character, or one (letter, previous, next) triple / code point of the shaping sweeps; '
                 'non-trivial = the line contains a right-to-left character or a mark; distinct = distinct (line, options)')
